@@ -72,3 +72,28 @@ theorem world_commit_needs_diff (H : HashFn) (w : W.World) (msg : Bytes) (tz : I
       | crash => rw [hh] at hs; simp [Res.map] at hs
 
 end C07
+
+namespace C07
+
+open TreeBuild IndexOps
+
+/-- **Committing nothing is refused** (whole-repository model, in a state every history reaches): when the staging area equals
+    HEAD's snapshot — as read back through the World's own store — `commit` does not end `ok`, whatever the message and the
+    identity; and a `commit` that does not succeed before reaching the tree writer changes nothing
+    (`C07.world_commit_refused_unchanged`). -/
+theorem world_commit_nothing_staged_refused (H : HashFn) (w : W.World) (msg : Bytes) (tz : Int) (ts : List Int)
+    (hj : W.J H w) (l : W.Loaded) (hl : W.load H w = some l) (sn : List Entry) (hsn : W.headSnap H w l = .ok sn)
+    (heq : l.idx = sn) (hne : w.heads.isEmpty = false) (o : Option Bytes) :
+    (W.run H w ⟨.commit msg, tz, ts⟩).2 ≠ .ok o := by
+  intro hout
+  obtain ⟨l', hl', _, h2⟩ := world_commit_needs_diff H w msg tz ts o hout
+  rw [hl] at hl'; injection hl' with hl'; subst hl'
+  obtain ⟨sn', d, ds, hsn', hdiff⟩ := h2 hne
+  rw [hsn] at hsn'; injection hsn' with hsn'; subst hsn'
+  have hgi := W.goodE_facts l.idx (W.loaded_idx_goodE H w l hl hj.1)
+  have hgs := W.goodE_facts sn ((W.readsGoodE H w hj.2).2 l sn hl hsn)
+  have := (diff_nil_iff H l.idx sn hgi.1 hgi.2.2.1 hgs.1 hgs.2.2.1).2 heq
+  rw [this] at hdiff
+  cases hdiff
+
+end C07
